@@ -96,13 +96,23 @@ theorem asSetArg (v : RVal) (pos : Pos) : FreshRes (fun r => r = v) (asSetArg v 
   unfold Ckl.asSetArg
   fresh!
 
+/-- the date results are never references -/
+theorem dateResM (r : DateRes) (pos : Pos) : FreshRes A (dateResM r pos) := by
+  unfold Ckl.dateResM
+  fresh!
+theorem callDate (name : String) (args : List (String × RVal)) (pos : Pos) (m : EvalM RVal)
+    (h : callDate name args pos = some m) : FreshRes A m := by
+  unfold Ckl.callDate at h
+  split at h <;> first | (injection h with h; subst h; exact dateResM _ _) | (cases h)
 theorem nativeAdd (a b : RVal) (pos : Pos) : FreshRes A (nativeAdd a b pos) := by
   unfold Ckl.nativeAdd
+  have := fun r p => dateResM (A := A) r p
   have := fun c => Allocates.collAsList c
   have := fun v p => Allocates.asStringM v p
   fresh!
 theorem nativeSub (a b : RVal) (pos : Pos) : FreshRes A (nativeSub a b pos) := by
   unfold Ckl.nativeSub
+  have := fun r p => dateResM (A := A) r p
   have := fun c => Allocates.collAsList c
   fresh!
 theorem nativeMul (a b : RVal) (pos : Pos) : FreshRes A (nativeMul a b pos) := by
